@@ -98,6 +98,7 @@ static void runCase(uint64_t caseId, Rng rng, size_t nsteps, unsigned mode, std:
 	auto pickTrig = [&]() { return (hlim::Clock::TriggerEvent) rng.below(3); };
 	auto pickRst = [&]() { return (hlim::RegisterAttributes::ResetType) rng.below(3); };
 	auto pickAct = [&]() { return rng.chance(1, 2) ? hlim::RegisterAttributes::Active::HIGH : hlim::RegisterAttributes::Active::LOW; };
+	std::vector<std::pair<hlim::Clock*, ClockConfig>> derivedCfgs; // what every clock was asked to be (derived: unset = inherited from the parent)
 	for (size_t i = 0; i < nroots; i++) {
 		auto f = big ? rng.pick(bigFreqs) : rng.pick(smallFreqs);
 		ClockConfig cfg;
@@ -109,9 +110,9 @@ static void runCase(uint64_t caseId, Rng rng, size_t nsteps, unsigned mode, std:
 		cfg.resetActive = pickAct();
 		if (*cfg.resetType != hlim::RegisterAttributes::ResetType::NONE && rng.chance(1, 3)) cfg.initializeRegs = false;
 		clocks.emplace_back(cfg);
+		derivedCfgs.push_back({clocks.back().getClk(), cfg});
 	}
 	size_t nder = rng.below(4);
-	std::vector<std::pair<hlim::Clock*, ClockConfig>> derivedCfgs; // what deriveClock was asked for (unset = inherited from the parent)
 	for (size_t i = 0; i < nder; i++) {
 		size_t parent = rng.below(clocks.size());
 		ClockConfig cfg;
@@ -199,7 +200,7 @@ static void runCase(uint64_t caseId, Rng rng, size_t nsteps, unsigned mode, std:
 		  << " nodes=" << !c->getClockedNodes().empty() << '\n';
 	}
 	for (auto &[c, cfg] : derivedCfgs) {
-		o << "ccfg " << c->getId() << " mul=" << (cfg.frequencyMultiplier ? rat(*cfg.frequencyMultiplier) : std::string("~")) << " name=" << (cfg.name ? *cfg.name : std::string("~")) << " rname=" << (cfg.resetName ? *cfg.resetName : std::string("~"))
+		o << "ccfg " << c->getId() << " mul=" << (cfg.frequencyMultiplier ? rat(*cfg.frequencyMultiplier) : cfg.absoluteFrequency ? rat(*cfg.absoluteFrequency) : std::string("~")) << " name=" << (cfg.name ? *cfg.name : std::string("~")) << " rname=" << (cfg.resetName ? *cfg.resetName : std::string("~"))
 		  << " trig=" << (cfg.triggerEvent ? std::string(1, trigNames[(int) *cfg.triggerEvent]) : std::string("~"))
 		  << " psync=" << (cfg.phaseSynchronousWithParent ? std::string(*cfg.phaseSynchronousWithParent ? "1" : "0") : std::string("~"))
 		  << " rst=" << (cfg.resetType ? std::string(1, "SAN"[(int) *cfg.resetType]) : std::string("~"))
